@@ -19,11 +19,16 @@ type Extra struct {
 	Samples     []interface{}
 	Coverage    map[string]interface{}
 	Lines       []string
+	Violations  int
+	EngineError bool
 }
 
 func (w *World) extraChecks(id string, opts *RunOpts) *Extra {
 	ex := &Extra{Coverage: map[string]interface{}{}}
 	w.witnessFindings(id, opts, ex)
+	if id == "C14" {
+		w.boundedC14(opts, ex)
+	}
 	return ex
 }
 
